@@ -66,6 +66,9 @@ def all_jobs():
                 jb.update(id='op_exp_base%d' % b, defines=list(j.get('defines', [])) + ['OPEXP_BASE=%d' % b], props=['C03'], pretty='bloc::OpEXPExpression::value (first operand %d)' % b, weight=20)
                 jb.pop('replay', None)
                 J.append(jb)
+    jm = op('op_match', 'OpMATCHExpression', ['C01', 'C02', 'C04', 'C05', 'C17'])
+    jm.pop('replay')   # the clauses speak about the ghost model of std::regex: nothing to evaluate natively
+    J.append(jm)
     for n, c in (('op_eq', 'OpEQExpression'), ('op_ne', 'OpNEExpression'), ('op_lt', 'OpLTExpression'), ('op_le', 'OpLEExpression'),
                  ('op_gt', 'OpGTExpression'), ('op_ge', 'OpGEExpression')):
         J.append(op(n, c, ['C01', 'C02', 'C04', 'C05'], weight=5))
@@ -118,7 +121,7 @@ def all_jobs():
     MEMB_REPLACE = [VCALL_VALUE, V_MOVE_ASSIGN, V_CLEAR, CTX_ALLOCATE, V_SWAP_RV_, V_CLONE, V_CTOR_LIT, V_MOVE_CTOR]
     MEMB_CUT = MEMB_REPLACE + [RTE_CTOR, RTE_CTOR_S, '_ZNK4bloc5Value8toStringB5cxx11Ev', '_ZNK4bloc5Value8typeNameB5cxx11Ev']
     COLL_ERASE = '_ZN4bloc10Collection5eraseEN9__gnu_cxx17__normal_iteratorIPKNS_5ValueESt6vectorIS3_SaIS3_EEEE'
-    for n, c, props in (('member_put', 'MemberPUTExpression', ['C01', 'C02', 'C05', 'C09', 'C10', 'C14']), ('member_delete', 'MemberDELETEExpression', ['C01', 'C02', 'C05', 'C09', 'C14']), ('member_at', 'MemberATExpression', ['C01', 'C02', 'C05', 'C09', 'C10'])):
+    for n, c, props in (('member_put', 'MemberPUTExpression', ['C01', 'C02', 'C05', 'C09', 'C10', 'C14', 'C17']), ('member_delete', 'MemberDELETEExpression', ['C01', 'C02', 'C05', 'C09', 'C14']), ('member_at', 'MemberATExpression', ['C01', 'C02', 'C05', 'C09', 'C10'])):
         mg = '_ZNK4bloc%d%s5valueERNS_7ContextE' % (len(c), c)
         J.append(dict(id=n, src='blocc/member/%s.cpp' % n, contract='%s.c' % n, enforce=mg, roots=[mg], replace=list(MEMB_REPLACE), cut=list(MEMB_CUT) + [COLL_ERASE],
                       props=props, pretty='bloc::%s::value' % c, canaries=['normal', 'exceptional'], unwind=2,
@@ -400,7 +403,7 @@ def all_jobs():
                   structs=DEFAULT_STRUCTS + [STD_STRING, 'bloc::Context', 'bloc::Symbol', 'bloc::Context::MemorySlot', 'bloc::VariableExpression', 'bloc::LETStatement', 'bloc::Statement']))
     J.append(dict(id='ctx_saveReturned', src='blocc/context.cpp', contract='ctx_returned.c', enforce='_ZN4bloc7Context12saveReturnedERNS_5ValueE', roots=['_ZN4bloc7Context12saveReturnedERNS_5ValueE'],
                   replace=[V_MOVE_CTOR], cut=['_ZN4bloc5Value4swapERS0_', V_MOVE_CTOR, V_CLEAR, V_CLONE, RTE_CTOR, RTE_CTOR_S], defines=['JOB_SAVE'],
-                  props=['C01', 'C05', 'C08', 'C17'], pretty='bloc::Context::saveReturned', canaries=['normal'], structs=DEFAULT_STRUCTS + [STD_STRING, 'bloc::Context']))
+                  props=['C01', 'C05', 'C08', 'C15', 'C17'], pretty='bloc::Context::saveReturned', canaries=['normal'], structs=DEFAULT_STRUCTS + [STD_STRING, 'bloc::Context']))
     J.append(dict(id='stmt_return_doit', src='blocc/statement_return.cpp', contract='ctx_returned.c', enforce='_ZNK4bloc15RETURNStatement4doitERNS_7ContextE', roots=['_ZNK4bloc15RETURNStatement4doitERNS_7ContextE'],
                   replace=[VCALL_VALUE], cut=[VCALL_VALUE, '_ZN4bloc7Context12saveReturnedERNS_5ValueE', RTE_CTOR, RTE_CTOR_S], defines=['JOB_RETURN'],
                   props=['C01', 'C07', 'C08'], pretty='bloc::RETURNStatement::doit', canaries=['normal', 'exceptional'], structs=DEFAULT_STRUCTS + [STD_STRING, 'bloc::Context', 'bloc::RETURNStatement', 'bloc::Statement']))
@@ -478,15 +481,17 @@ def all_jobs():
         follows = name in BUILTIN_FOLLOWS_COMPLEX
         tyform = 'BUILTIN_TYPE_SAME_AS_ARG1' if name in BUILTIN_SAME_AS_ARG1 else ('BUILTIN_TYPE_ARITH2' if name in BUILTIN_ARITH2 else ('BUILTIN_TYPE_POW' if name == 'pow' else None))
         J.append(dict(id='bi_' + name, src='blocc/builtin/builtin_%s.cpp' % name, contract='builtin_generic.c', enforce=mg, roots=[mg], replace=list(MEMB_REPLACE) + [V_CTOR_IMAG], cut=list(MEMB_CUT) + [V_CTOR_IMAG],
-                      props=['C01', 'C05'] + (['C02'] if (ftype or follows or tyform) else []) + (['C03', 'C04', 'C10'] if name in ('int', 'num') else []) + (['C10'] if name == 'isnum' else []), pretty='bloc::%s::value' % cls, canaries=['normal', 'exceptional'], unwind=uw,
+                      props=['C01', 'C05'] + (['C02'] if (ftype or follows or tyform) else []) + (['C03', 'C04', 'C10'] if name in ('int', 'num') else []) + (['C10'] if name == 'isnum' else []) + (['C03'] if name == 'mod' else []), pretty='bloc::%s::value' % cls, canaries=['normal', 'exceptional'], unwind=uw,
                       unwind_why=uw_why,
-                      defines=['BUILTIN_FN=' + mg, 'BUILTIN_CLASS=' + cls, 'BUILTIN_NARGS=%d' % nargs] + (['BUILTIN_STR_MAX=%d' % strmax] if strmax else []) + (['BUILTIN_TYPE=' + ftype] if ftype else []) + (['BUILTIN_TYPE_FOLLOWS_COMPLEX'] if follows else []) + ([tyform] if tyform else []) + (['BUILTIN_RESULT_IS_CONTAINER'] if ftype in ('LITERAL', 'TABCHAR') else []) + (['BUILTIN_ABS'] if name == 'abs' else []) + (['BUILTIN_IS_INT'] if name == 'int' else []) + (['BUILTIN_IS_NUM'] if name == 'num' else []) + (['BUILTIN_IS_ISNUM'] if name == 'isnum' else []),
+                      defines=['BUILTIN_FN=' + mg, 'BUILTIN_CLASS=' + cls, 'BUILTIN_NARGS=%d' % nargs] + (['BUILTIN_STR_MAX=%d' % strmax] if strmax else []) + (['BUILTIN_TYPE=' + ftype] if ftype else []) + (['BUILTIN_TYPE_FOLLOWS_COMPLEX'] if follows else []) + ([tyform] if tyform else []) + (['BUILTIN_RESULT_IS_CONTAINER'] if ftype in ('LITERAL', 'TABCHAR') else []) + (['BUILTIN_ABS'] if name == 'abs' else []) + (['BUILTIN_IS_INT'] if name == 'int' else []) + (['BUILTIN_IS_NUM'] if name == 'num' else []) + (['BUILTIN_IS_ISNUM'] if name == 'isnum' else []) + (['BUILTIN_IS_MOD'] if name == 'mod' else []),
                       replay=dict(kind='evalnode', headers=['blocc/builtin/builtin_%s.h' % name], mirror_class=cls, children=nargs,
                                   construct='new bloc::%s(std::vector<bloc::Expression*>{%s})' % (cls, ', '.join('kids[%d]' % i for i in range(nargs))),
                                   script='%s(%s)' % (name, ', '.join('{%d}' % i for i in range(nargs)))),
                       **({'bounded_inputs': True, 'thorough': dict(unwind=uw + 6, unwind_why=uw_why.replace('at most 2', 'at most 4') + ' (thorough tier)',
                                                                      defines=['BUILTIN_FN=' + mg, 'BUILTIN_CLASS=' + cls, 'BUILTIN_NARGS=%d' % nargs, 'BUILTIN_STR_MAX=%d' % (strmax + 2)] + (['BUILTIN_TYPE=' + ftype] if ftype else []) + (['BUILTIN_TYPE_FOLLOWS_COMPLEX'] if follows else []) + ([tyform] if tyform else []) + (['BUILTIN_RESULT_IS_CONTAINER'] if ftype in ('LITERAL', 'TABCHAR') else []) + (['BUILTIN_ABS'] if name == 'abs' else []) + (['BUILTIN_IS_INT'] if name == 'int' else []) + (['BUILTIN_IS_NUM'] if name == 'num' else []) + (['BUILTIN_IS_ISNUM'] if name == 'isnum' else []))} if strmax else {}),
                       structs=DEFAULT_STRUCTS + [STD_STRING, VEC_CHAR, 'bloc::Imaginary', 'std::complex<double>', 'bloc::Context', 'bloc::' + cls]))
+        if name == 'mod':
+            J[-1]['uf'] = True   # the clause about the value of % is decided with % uninterpreted (as for the operator)
         if ftype or follows or tyform:
             # the static half: type() of the same node
             tmg = '_ZNK4bloc%d%s4typeERNS_7ContextE' % (len(cls), cls)
@@ -568,6 +573,8 @@ ASSUMPTIONS = [
   'heap exhaustion and stack overflow do not occur',
   'callee contracts used as stubs (contracts/value_api.h): Value::_clear, Value::clone, Value(Value&&), operator=(Value&&), swap(Value&&), swap(Value&) and Context::allocate (Pool::keep, bounded) are ALSO proved on their real bodies by the jobs value_clear, value_clone, value_move_*, value_swap_*, ctx_pool_keep; the remaining stubs (Value constructors from payloads, Context::storeVariable / getSymbol / control stack, libstdc++ containers, libm) are assumed',
   'std::string / std::vector / std::list are modelled at API level (contracts/containers.h, strid.h and per-job ghost arrays): sizes and, where a clause needs it, content identity; iterator and index preconditions of the library are asserted, contents are not modelled unless the job says so',
+  'std::regex (operator MATCHES, job op_match) is outside the cut: its constructor, assign, destructor and std::regex_match are a ghost model in contracts/op_match.c that answers arbitrarily (any boolean, or std::regex_error) and records which string a pattern object was compiled from and which pattern a match ran against; libstdc++\'s compiler and matcher themselves are trusted',
+  'the exception class hierarchy used by the rendered catch dispatch (contracts/bloc_exc.h) is written by hand from blocc/exception.h and the C++ standard',
   'integer-to-integer conversions are modulo 2^N as GCC defines them (CBMC conversion-check results for them are ignored; float-to-integer conversions are checked)',
   'the structural induction over the expression tree that carries per-node contracts to whole programs is argued in DESIGN.md, not mechanised',
 ]
